@@ -30,12 +30,16 @@ type Desc struct {
 	// Sched: a forced schedule (library yield points): the operation's reader is held until the read
 	// loop has met the loss, so the error overtakes the bytes still queued; while the second later
 	// operation runs, the read loop is held in front of its next error hand-over.
-	Sched  bool       `json:"sched,omitempty"`
-	Seg    devsim.Seg `json:"seg"`
-	Base   int        `json:"base"`
-	S      int        `json:"s"`
-	Want   string     `json:"want"`
-	DryErr string     `json:"dry_err,omitempty"`
+	Sched bool `json:"sched,omitempty"`
+	// Alive: the transport's IsAlive is honest and early (false once the last byte before the loss
+	// has been handed out). SilenceMs: the device is silent this long before the connection goes away.
+	Alive     bool       `json:"alive_honest,omitempty"`
+	SilenceMs int        `json:"silence_ms,omitempty"`
+	Seg       devsim.Seg `json:"seg"`
+	Base      int        `json:"base"`
+	S         int        `json:"s"`
+	Want      string     `json:"want"`
+	DryErr    string     `json:"dry_err,omitempty"`
 }
 
 const (
@@ -100,7 +104,7 @@ func runOnce(d Desc, settle time.Duration) mon.Result {
 		return mon.Result{Verdict: mon.Inconclusive, Detail: "dry run failed in the parent but not here: " + d.DryErr}
 	}
 	t00 := time.Now()
-	cfg := devsim.Config{Seg: d.Seg, KeepData: true}
+	cfg := devsim.Config{Seg: d.Seg, KeepData: true, AliveTracksPeer: d.Alive, AliveEarly: d.Alive, FaultDelay: time.Duration(d.SilenceMs) * time.Millisecond}
 	if sc.Pre == nil {
 		switch d.Kind {
 		case "eof":
@@ -223,7 +227,13 @@ func runOnce(d Desc, settle time.Duration) mon.Result {
 	} else {
 		obs["op_failed"]++
 		tags = append(tags, "errclass="+errClass(r.err))
-		if el > promptly {
+		if d.Alive {
+			obs["losses_with_honest_early_isalive"]++
+		}
+		if d.SilenceMs > 0 {
+			obs["losses_after_a_silence"]++
+		}
+		if el > promptly+time.Duration(d.SilenceMs)*time.Millisecond {
 			if mon.LoadedSince(t00) {
 				return mon.Result{Verdict: mon.Inconclusive, Detail: fmt.Sprintf("error after %s but machine loaded", el)}
 			}
@@ -406,7 +416,7 @@ func gen(tier string, seed int64) []mon.Case {
 	var cs []mon.Case
 	n := 0
 	add := func(d Desc) {
-		cs = append(cs, mon.MkCase(fmt.Sprintf("c06/%05d-%s-%s-k%d-j%d%s%s", n, d.Scenario, d.Kind, d.K, d.J, map[bool]string{true: "-unsol"}[d.Unsol], map[bool]string{true: "-sched"}[d.Sched]), d))
+		cs = append(cs, mon.MkCase(fmt.Sprintf("c06/%05d-%s-%s-k%d-j%d%s%s", n, d.Scenario, d.Kind, d.K, d.J, map[bool]string{true: "-unsol"}[d.Unsol], map[bool]string{true: "-sched"}[d.Sched]+map[bool]string{true: "-alive"}[d.Alive]+map[bool]string{true: fmt.Sprintf("-silence%d", d.SilenceMs)}[d.SilenceMs > 0]), d))
 		n++
 	}
 	segs := []devsim.Seg{{Mode: "fixed", Size: 7, Seed: seed}, {Mode: "mix", Size: 16, Seed: seed + 1, Delay: "gosched"}}
@@ -436,6 +446,17 @@ func gen(tier string, seed int64) []mon.Case {
 					add(Desc{Scenario: sc.Name, Kind: kind, K: k, Seg: seg, Base: st.Base, S: st.S, Want: st.Want})
 				}
 				// the loss kinds the net package produces: every 5th offset (all in thorough)
+				// an honest, early IsAlive; and a loss that follows a silence of 300 ms
+				if sc.KStep <= 1 && (k%4 == 1 || k == st.S) && (tier == "thorough" || sc.Quick || sc.IsOpen) {
+					add(Desc{Scenario: sc.Name, Kind: "eof", K: k, Alive: true, Seg: seg, Base: st.Base, S: st.S, Want: st.Want})
+					add(Desc{Scenario: sc.Name, Kind: "err", K: k, Alive: true, Seg: seg, Base: st.Base, S: st.S, Want: st.Want})
+				}
+				if sc.KStep <= 1 && k > 0 && k < st.S && k%9 == 4 && (tier == "thorough" || sc.Quick || sc.IsOpen) {
+					add(Desc{Scenario: sc.Name, Kind: "eof", K: k, SilenceMs: 300, Seg: seg, Base: st.Base, S: st.S, Want: st.Want})
+					if tier == "thorough" {
+						add(Desc{Scenario: sc.Name, Kind: "err", K: k, SilenceMs: 300, Seg: seg, Base: st.Base, S: st.S, Want: st.Want})
+					}
+				}
 				if tier == "thorough" || k%5 == 2 || k == st.S {
 					for _, kind := range []string{"err-etimedout", "err-econnreset"} {
 						add(Desc{Scenario: sc.Name, Kind: kind, K: k, Seg: seg, Base: st.Base, S: st.S, Want: st.Want})
